@@ -72,6 +72,7 @@ def case_eko(log, opnames, folder=False):
     """ops applied in sequence to an EKO opened from an archive (or from an extracted folder)."""
     log.encode(*iofs.encoded_functions())
     decide = iofs.Decider(log)
+    _register_fallbacks(log, [opnames], folder)
     _eko_history(log, decide, opnames, folder)
     decide.finish()
 
